@@ -119,6 +119,10 @@ def gen_strings(ctx, exh_len, n_tok, n_rand):
             i = rng.randrange(len(s))
             s = s[:i] + rng.choice(["", "x", ",", ".", "e", "-", " ", "1", " ", "\x0b"]) + s[i + (rng.random() < 0.5):]
         out.append(s)
+    # the same argument text under an arc command and right afterwards under other commands (compact flags read as numbers)
+    for txt in ["5 5 0 01 20 30", "1 1 0 1 0 3 4", "2 2 30 10 5 6", "1 2 3 011 5", "9 9 0 00 1 1 9 9 0 11 2 2"]:
+        for c in "ahlcqtAHL":
+            out.append(c + txt)
     out += ["", " ", "M", "Z", "M1 2Z", "a.1.2.3,10-.4-.5.6.7.8e+2,01.9+.1e-2", "A3.996 3.996 0 0016 9",
             "M0 0 1,2 3, 4 C5, 6-7.0.5 8-9Z", "I love kittens", "M 1 2", "M1 2 ", "M1\x0b2", "M1,2,", "M,1,2",
             "M 1 2 3", "z1", "M1e5 2E-3", "L005,1", "M01 02", "M1 2 L 3", "M1,2L3,4e", "\x0cM1 2"]
